@@ -11,16 +11,19 @@ def run(ck):
     ck.cov["rule"] = ("PRNG traces (launch profile): shard definitions, an accepted launch batch, optional second launch batch / mixed batch, then ticks "
                       "up to deadline+3 with the completing reports placed at deadline-23/-3/-1/0/+1 ticks, or never, or incomplete (one host missing), "
                       "or completed by a report about an UNDEFINED shard id; a snapshot/restore fork placed before, at and after the deadline; "
-                      "every later update, lookup, hash and snapshot observed. Plus mailbox and chaos traces. Non-trivial = contains a launch batch.")
+                      "every later update, lookup, hash and snapshot observed; a SCHEDULER_CONTEXT lookup after every report (the monitor decides "
+                      "'every defined shard fully reporting' from it, independently of the code's own test). Run first: corpus/C09/*.trace.json "
+                      "(witnesses of the repaired count-based clearing defect in both directions, completion exactly at / one tick after the "
+                      "deadline, mixed batches). Plus mailbox traces. Non-trivial = contains a launch batch.")
     ok = ck.proofs(["theories/DBRun.vo"])
     eng = dbengine.Engine(ck)
     eng.sort_ls = True
     if not eng.build():
         return
     traces = dbprops.load_corpus("C09")
-    for _ in range(450 if ck.tier == "quick" else 20000):
+    for _ in range(360 if ck.tier == "quick" else 20000):
         traces.append(dbgen.gen_launch_trace(ck.rng))
-    for _ in range(60 if ck.tier == "quick" else 2000):
+    for _ in range(40 if ck.tier == "quick" else 2000):
         traces.append(dbgen.gen_mailbox_trace(ck.rng, length=25))
     if not ok:
         return
